@@ -16,6 +16,7 @@ CONSTANTS CFGS,      \* configurations one of which is chosen by Init
           MAXRESTART,\* restarts per behaviour
           UPDENDS,   \* EndBlock values a params update may set on a feeder
           MAXUPD,    \* params updates per behaviour
+          ADDS,      \* feeders a params update may add / resume: records [tok, start, iv]; the round id is the valid one
           SECONDBAD, \* TRUE: the second message of a two-message tx always carries a stale base block (lead L7 probes)
           FAILBUDGET \* rejected txs per behaviour (>= MAXOPS: unlimited)
 
@@ -106,7 +107,7 @@ DoEnd(restart) ==
 \* MsgUpdateParams (governance): set the EndBlock of a feeder
 DoUpd(f, e) ==
   /\ Len(hist) < MAXOPS /\ S.h <= MAXH /\ ~last.halt /\ nupd < MAXUPD
-  /\ S.kfd[f].start < 1000000      \* not for a feeder that is switched off in this configuration
+  /\ Present(S.kfd, f) /\ S.kfd[f].start < 1000000      \* not for a feeder that is switched off in this configuration
   /\ LET rs == Apply(S, "Upd", [f |-> f, end |-> e])
          rt == IF T = S THEN rs ELSE Apply(T, "Upd", [f |-> f, end |-> e])
      IN /\ (rs.err = "" \/ nfail < FAILBUDGET)
@@ -116,6 +117,21 @@ DoUpd(f, e) ==
         /\ last' = [ev |-> "Upd", okS |-> rs.err = "", okT |-> rt.err = "", fin |-> {}, carryOK |-> TRUE, halt |-> FALSE]
   /\ nupd' = nupd + 1 /\ UNCHANGED <<G, nrestart, ntx, bp>>
 
+\* MsgUpdateParams (governance): add the first feeder of a token / re-plan a feeder that has not started / resume a token
+\* whose feeder has ended (with the round id that continues the token's numbering)
+ResumeRound(fd, tok) == IF IdsOf(fd, tok) = {} THEN 1 ELSE LET p == fd[LatestOf(fd, tok)] IN IF p.end = 0 THEN p.sr ELSE p.sr + (p.end - p.start) \div p.iv + 1
+DoAdd(x) ==
+  /\ Len(hist) < MAXOPS /\ S.h <= MAXH /\ ~last.halt /\ nupd < MAXUPD
+  /\ LET a  == [tok |-> x.tok, start |-> x.start, iv |-> x.iv, sr |-> ResumeRound(S.kfd, x.tok)]
+         rs == Apply(S, "Add", a)
+         rt == IF T = S THEN rs ELSE Apply(T, "Add", a)
+     IN /\ (rs.err = "" \/ nfail < FAILBUDGET)
+        /\ nfail' = IF rs.err # "" /\ FAILBUDGET < MAXOPS THEN nfail + 1 ELSE nfail
+        /\ S' = rs.st /\ T' = rt.st
+        /\ hist' = Append(hist, [ev |-> "Add", a |-> a, n |-> IF rs.err = "" THEN {"add"} ELSE {}])
+        /\ last' = [ev |-> "Add", okS |-> rs.err = "", okT |-> rt.err = "", fin |-> {}, carryOK |-> TRUE, halt |-> FALSE]
+  /\ nupd' = nupd + 1 /\ UNCHANGED <<G, nrestart, ntx, bp>>
+
 \* message alphabet, relative to the state of S
 Bases(f) == (IF f \in DOMAIN S.rounds THEN {S.rounds[f].base} ELSE {0}) \cup
             (IF BADBASE /\ f \in DOMAIN S.rounds THEN {S.rounds[f].base + 1} ELSE {})
@@ -123,11 +139,11 @@ NextNonce(nn, v, f) == IF <<v, f>> \in DOMAIN nn THEN nn[<<v, f>>] + 1 ELSE 1
 Nonces(nn, v, f) == {NextNonce(nn, v, f)} \cup (IF BADNONCE THEN {NextNonce(nn, v, f) + 1} ELSE {})
 
 MsgsFor(nn, P) ==
-  UNION {{[v |-> vf[1], f |-> vf[2], base |-> b, nonce |-> n, ps |-> ps] : b \in Bases(vf[2]), n \in Nonces(nn, vf[1], vf[2]), ps \in P} : vf \in (DOMAIN S.c.pw) \X FEEDERS}
+  UNION {{[v |-> vf[1], f |-> vf[2], base |-> b, nonce |-> n, ps |-> ps] : b \in Bases(vf[2]), n \in Nonces(nn, vf[1], vf[2]), ps \in P} : vf \in (DOMAIN S.c.pw) \X {f \in FEEDERS : Present(S.c.fd, f)}}
 AfterFirst(m) == IF <<m.v, m.f>> \in DOMAIN S.nonce THEN [S.nonce EXCEPT ![<<m.v, m.f>>] = m.nonce] ELSE S.nonce
 StaleBase(f) == IF f \in DOMAIN S.rounds THEN S.rounds[f].base + 1 ELSE 1
 SecondFor(m) ==
-  IF SECONDBAD THEN {[v |-> m.v, f |-> f, base |-> StaleBase(f), nonce |-> NextNonce(AfterFirst(m), m.v, f), ps |-> ps] : f \in FEEDERS, ps \in PSS2}
+  IF SECONDBAD THEN {[v |-> m.v, f |-> f, base |-> StaleBase(f), nonce |-> NextNonce(AfterFirst(m), m.v, f), ps |-> ps] : f \in {x \in FEEDERS : Present(S.c.fd, x)}, ps \in PSS2}
   ELSE {x \in MsgsFor(AfterFirst(m), PSS2) : x.v = m.v}
 OneMsgs == {<<m>> : m \in MsgsFor(S.nonce, PSS)}
 TwoMsgs ==
@@ -139,6 +155,7 @@ Next ==
   \/ \E ms \in TwoMsgs : DoTx(ms)
   \/ \E r \in BOOLEAN : DoEnd(r)
   \/ \E f \in FEEDERS, e \in UPDENDS : DoUpd(f, e)
+  \/ \E x \in ADDS : DoAdd(x)
 
 Spec == Init /\ [][Next]_vars
 
